@@ -802,6 +802,25 @@ theorem truthful_broker_never_strands_waiters (stream0 : List Frame) (ht : Truth
         | kafkaErr p g => exact (head_not_taken ht hi hs hcj (by rw [hst]; rfl) hid).elim
     simp [step, hl, hrd, statusOf, hcj, hw, hs, hid]
 
+/-- **no_progress_only_when_alone** — `io.ErrNoProgress` is enabled for a caller only while no other call is waiting
+for its response, whatever is at the head of the stream (the reference monitor `Spec.Mux.noProgressOnlyAlone` checks the
+same thing on the recorded events of the real code) -/
+theorem no_progress_only_when_alone (s s' : State) (seq seen : Nat) (h : step s (.lone seq seen) = some s')
+    (j : Nat) (hj : j ≠ seq) (hr : j ≤ s.nextSeq) : statusOf s j ≠ some .waiting := by
+  simp only [step] at h
+  split at h
+  · next f rest hrd hl hw hs =>
+    split at h
+    · next hc =>
+      have hal := hc.2.2
+      simp only [aloneWaiting, List.all_eq_true, List.mem_range] at hal
+      have := hal j (by omega)
+      intro hwj
+      simp [hwj] at this
+      exact hj this
+    · cases h
+  · cases h
+
 /-- the hypothesis is needed: one duplicated answer and two later callers — both waiters see a frame that belongs
 to neither, both can only yield (neither is alone), for ever -/
 theorem duplicate_answer_strands_waiters_counterexample :
@@ -1367,6 +1386,10 @@ parameters by position and data flow), so behaviour-preserving edits leave it tr
 * `promisePairedWithRequest`, `runAnswersItsOwnRequest` — TransportConn `Delivery`: the response of an exchange
   goes to the promise created with that request.
 * `loneOnlyWhenAlone` — `Event.lone` requires `aloneWaiting`.
+* `inflightCountsRequests` — `Event.lone` requires `aloneWaiting`, which counts the calls whose status is `waiting`: every
+  request written and not yet served.  In the code that is `Conn.inflight`: `enter()` in `doRequest` (the one function
+  that numbers and writes a request, whoever calls it), `leave()` when the wait ends (seed C06-m9 moved `enter()` to `do`:
+  ApiVersions and ReadBatchWith were no longer counted and the counter drifted below the number of waiters).
 * `primitivesChargeWhatTheyConsume` — the primitives of read.go / discard.go themselves: every `r.Discard` /
   `io.ReadFull` / `r.Read` has its byte count subtracted from the budget (`conserves_*` of Base/Reader,
   `varint_read_conserves` below: the hypothesis `Prim.conserves` of `wire_discipline_consumes_frame`).
@@ -1394,7 +1417,7 @@ theorem structural_facts_hold :
     Gen.MuxFacts.batchCallbacksThreaded = true ∧ Gen.MuxFacts.hooksInsideCriticalSections = true ∧
     Gen.MuxFacts.promisePairedWithRequest = true ∧ Gen.MuxFacts.runAnswersItsOwnRequest = true ∧
     Gen.MuxFacts.loneOnlyWhenAlone = true ∧ Gen.MuxFacts.readFailureCloseDropsBuffered = true ∧
-    Gen.MuxFacts.primitivesChargeWhatTheyConsume = true := by decide
+    Gen.MuxFacts.primitivesChargeWhatTheyConsume = true ∧ Gen.MuxFacts.inflightCountsRequests = true := by decide
 
 /-- **readVarInt conserves bytes however the response is cut into chunks** (Model/VarIntRead.lean).  `Prim.varint` of
 Model/WireProg.lean took this for granted; it is now proved for the algorithm of read.go itself — the window of buffered
